@@ -167,20 +167,14 @@ unsafe impl<T, N: ArrayLength> GenericSequence<T> for Box<GenericArray<T, N>> {
         F: FnMut(usize) -> T,
     {
         unsafe {
-            use core::{
-                alloc::Layout,
-                mem::{size_of, MaybeUninit},
-                ptr,
-            };
+            use core::mem::MaybeUninit;
 
-            // Box::new_uninit() is nightly-only
-            let ptr: *mut GenericArray<MaybeUninit<T>, N> = if size_of::<T>() == 0 {
-                ptr::NonNull::dangling().as_ptr()
-            } else {
-                alloc::alloc::alloc(Layout::new::<GenericArray<MaybeUninit<T>, N>>()).cast()
-            };
+            // `Box::new_uninit` takes care of zero-sized arrays and allocation failure,
+            // and the box frees the allocation if `f` panics. An array of `MaybeUninit`
+            // elements needs no initialization, so `assume_init` here is fine.
+            let mut array: Box<GenericArray<MaybeUninit<T>, N>> = Box::new_uninit().assume_init();
 
-            let mut builder = IntrusiveArrayBuilder::new(&mut *ptr);
+            let mut builder = IntrusiveArrayBuilder::new(&mut *array);
 
             {
                 let (builder_iter, position) = builder.iter_position();
@@ -193,7 +187,7 @@ unsafe impl<T, N: ArrayLength> GenericSequence<T> for Box<GenericArray<T, N>> {
 
             builder.finish();
 
-            Box::from_raw(ptr.cast()) // IntrusiveArrayBuilder::array_assume_init
+            Box::from_raw(Box::into_raw(array).cast()) // IntrusiveArrayBuilder::array_assume_init
         }
     }
 }
